@@ -13,6 +13,7 @@ import (
 	"math/rand"
 	"os"
 	"path/filepath"
+	"time"
 )
 
 type GenOutput struct {
@@ -20,6 +21,7 @@ type GenOutput struct {
 	Tier       string         `json:"tier"`
 	Seed       int64          `json:"seed"`
 	Hists      []Hist         `json:"hists"`
+	SQLCases   []SQLCase      `json:"sqlcases,omitempty"`
 	Stats      map[string]int `json:"stats"`
 	Shards     []string       `json:"shards"`
 	ShardOf    []int          `json:"shard_of"` // history index -> shard
@@ -69,7 +71,30 @@ func writeShards(outDir string, hs []Hist, perShard int) ([]string, []int, []int
 	return shards, shardOf, indexIn
 }
 
+func writeSQLShards(outDir string, cs []SQLCase, perShard int) ([]string, []int, []int) {
+	shards := []string{}
+	shardOf := make([]int, len(cs))
+	indexIn := make([]int, len(cs))
+	for s := 0; s*perShard < len(cs); s++ {
+		lo, hi := s*perShard, (s+1)*perShard
+		if hi > len(cs) {
+			hi = len(cs)
+		}
+		name := fmt.Sprintf("cases_%03d.v", s)
+		if err := os.WriteFile(filepath.Join(outDir, name), []byte(emSQLCasesFile(cs[lo:hi])), 0o644); err != nil {
+			panic(err)
+		}
+		shards = append(shards, name)
+		for i := lo; i < hi; i++ {
+			shardOf[i] = s
+			indexIn[i] = i - lo
+		}
+	}
+	return shards, shardOf, indexIn
+}
+
 func main() {
+	time.Local = time.UTC
 	if len(os.Args) < 2 {
 		fmt.Fprintln(os.Stderr, "usage: harness gen|replay ...")
 		os.Exit(2)
@@ -84,14 +109,26 @@ func main() {
 		perShard := fs.Int("pershard", 150, "histories per case file")
 		fs.Parse(os.Args[2:])
 		g := &Gen{r: rand.New(rand.NewSource(*seed))}
-		plan, ok := plans[*prop]
-		if !ok {
-			fmt.Fprintln(os.Stderr, "no plan for", *prop)
-			os.Exit(2)
-		}
-		res := plan(g, *tier)
 		os.MkdirAll(*out, 0o755)
-		shards, shardOf, indexIn := writeShards(*out, res.Hists, *perShard)
+		var res GenOutput
+		var shards []string
+		var shardOf, indexIn []int
+		if sp, ok := sqlPlans[*prop]; ok {
+			cs, stats, exh := sp(g, *tier)
+			for i := range cs {
+				runSQLCase(&cs[i])
+			}
+			res = GenOutput{SQLCases: cs, Stats: stats, Exhaustive: exh, Hists: []Hist{}}
+			shards, shardOf, indexIn = writeSQLShards(*out, cs, *perShard*4)
+		} else {
+			plan, ok := plans[*prop]
+			if !ok {
+				fmt.Fprintln(os.Stderr, "no plan for", *prop)
+				os.Exit(2)
+			}
+			res = plan(g, *tier)
+			shards, shardOf, indexIn = writeShards(*out, res.Hists, *perShard)
+		}
 		res.Prop, res.Tier, res.Seed = *prop, *tier, *seed
 		res.Shards, res.ShardOf, res.IndexIn = shards, shardOf, indexIn
 		data, err := json.Marshal(res)
@@ -101,7 +138,7 @@ func main() {
 		if err := os.WriteFile(filepath.Join(*out, "cases.json"), data, 0o644); err != nil {
 			panic(err)
 		}
-		fmt.Printf("generated %d histories in %d shards\n", len(res.Hists), len(shards))
+		fmt.Printf("generated %d histories / %d sql cases in %d shards\n", len(res.Hists), len(res.SQLCases), len(shards))
 	case "replay":
 		fs := flag.NewFlagSet("replay", flag.ExitOnError)
 		in := fs.String("in", "", "replay file")
@@ -112,11 +149,22 @@ func main() {
 			panic(err)
 		}
 		var rp struct {
-			Prop string `json:"property"`
-			Hist Hist   `json:"history"`
+			Prop string   `json:"property"`
+			Hist Hist     `json:"history"`
+			SQL  *SQLCase `json:"sqlcase"`
 		}
 		if err := json.Unmarshal(data, &rp); err != nil {
 			panic(err)
+		}
+		if rp.SQL != nil {
+			c := *rp.SQL
+			runSQLCase(&c)
+			os.MkdirAll(*out, 0o755)
+			res := GenOutput{Prop: rp.Prop, Tier: "replay", Hists: []Hist{}, SQLCases: []SQLCase{c}, Stats: map[string]int{}}
+			res.Shards, res.ShardOf, res.IndexIn = writeSQLShards(*out, res.SQLCases, 10)
+			d2, _ := json.Marshal(res)
+			os.WriteFile(filepath.Join(*out, "cases.json"), d2, 0o644)
+			return
 		}
 		ops := []Op{}
 		for _, s := range rp.Hist.Steps {
